@@ -265,6 +265,17 @@ pub fn init(catch_aborts: bool) {
     }
 }
 
+/// Restore the default disposition of the abort-like signals (C16 children must die
+/// the way a real process would).
+pub fn default_abort_signals() {
+    unsafe {
+        let sa = SigAction { handler: 0, mask: [0; 16], flags: 0, restorer: 0 };
+        sigaction(4, &sa, std::ptr::null_mut());
+        sigaction(5, &sa, std::ptr::null_mut());
+        sigaction(6, &sa, std::ptr::null_mut());
+    }
+}
+
 /// Forget everything the previous run did and restart placement from `layout_seed`.
 pub fn reset(layout_seed: u64, arena_on: bool) {
     unsafe {
